@@ -18,7 +18,7 @@ from native.bounded._common import FLAGS, Checker
 BOUND = ("circuits made of G in 1..4 same-shape embedding layers (so that they fold into one tensor when fold=True) feeding a Hadamard (or a single "
          "layer), weight shapes (K, N) with K in 1..3, N in 2..4, one initialiser per layer drawn from: constant scalar, constant ndarray, "
          "uniform(a, b), normal(mean, stddev), dirichlet(alpha, axis in {-2, -1, 0, 1}); learnable and non-learnable parameters; real and complex "
-         "dtypes for constants/normal; four (fold, optimize) settings; checked after compile and after 2 resets; 120 (x4 thorough) circuits; rank-3 "
+         "dtypes for constants/normal; four (fold, optimize) settings; checked after compile and after 2 resets, every stored tensor being overwritten with -7.25 before each reset; 120 (x4 thorough) circuits; rank-3 "
          "parameters (Dirichlet on every axis) through dirichlet_-initialised sum weights reshaped by an IndexParameter are NOT covered (cirkit layers use rank <= 2)")
 RULE = "one case = (circuit index, fold, optimize, layer position, initialiser, stage); distinct by that tuple; all non-trivial"
 
@@ -92,6 +92,10 @@ def run(tier, seed):
             slots = set()
             for stage in ("compiled", "reset1", "reset2"):
                 if stage != "compiled":
+                    with torch.no_grad():          # "training": every stored tensor is overwritten with values no initialiser produces
+                        for tp in tps:
+                            t0, _ = ctx._compiler.state.retrieve_compiled_parameter(tp)  # pylint: disable=protected-access
+                            t0._ptensor.fill_(-7.25)  # pylint: disable=protected-access
                     tc.reset_parameters()
                 for g, (tp, desc) in enumerate(zip(tps, descs)):
                     t, fi = ctx._compiler.state.retrieve_compiled_parameter(tp)  # pylint: disable=protected-access
